@@ -624,7 +624,8 @@ func TestGen(t *testing.T) {
 		"metadata x CSR (RSA/EC/Ed25519, CN, SAN/CA extension requests, malformed PEM/DER/signature) x TTL (<=0, around max, int64 overflow) x " +
 		"CA config (self-signed, plugged-in with chain, near-expiry signer, expired signer, not ready; default/max TTL incl. default>max); " +
 		"the issued leaf is DER-decoded and projected. Authenticators are driven directly with signed JWTs, TokenReview outcomes, peer " +
-		"certificates, XFCC headers and peer addresses. A case is trivial only when no authenticator is configured."
+		"certificates, XFCC headers and peer addresses. History cases keep one real Server + ClusterNodeAuthorizer (fake kube client) alive " +
+		"through generated pod add/move/delete events (each awaited on the authorizer's informer) and impersonation requests. A case is trivial only when no authenticator is configured."
 	root := vlib.NewRand(vlib.Seed())
 	stop := make(chan struct{})
 	defer close(stop)
@@ -673,6 +674,8 @@ func TestGen(t *testing.T) {
 	lap("authenticators")
 	id = runNewCA(t, c, root.Sub(), id, env)
 	lap("newca")
+	id = runHistories(t, c, root.Sub(), id, env)
+	lap("histories")
 	_ = id
 	c.Extra["timing_s"] = timing
 	if err := c.Flush(); err != nil {
